@@ -2,14 +2,16 @@
 // with std:: containers as independent shadow oracles.
 //
 // One case = one operation history on one line:   <container> <params> : op;op;op
-//   al <N>   : push x | erase k | purge | clear | get k | set k x | hold k | idx k j
-//   sl       : (a|b).(pb x | pf x | pop | clear | ia k x | dn k | asg a|b | cc | mb | me | m+ | mi x | mr)
-//   rv <n>   : (a|b).(push x | emp x | pop | clear | resize k | set i x | at i | fill x | swap | ctor | ctorc k |
+//   al <N>   : [b.](push x | erase k | purge | clear | get k | set k x | hold k | idx k j | asg | cc | sasg)
+//              two lists a (bare op) and b (prefix "b."); asg: target = other, cc: target constructed anew as a copy
+//              of the other list, sasg: target = target
+//   sl       : (a|b).(pb x | pf x | pop | clear | ia k x | dn k | asg a|b | cc | ccv | mb | me | m+ | mi x | mr)
+//   rv <n>   : (a|b).(push x | emp x | pop | clear | resize k | set i x | at i | fill x | swap | asg | ctor | ctorc k |
 //                     ctorv k x | init [l])
-//   bv <B>   : new n | newv n b | resize n b | clear | setall | unsetall | set i | reset i | flip i | set1 i j b |
-//              reset1 i j | flip1 i j | asgb i b | asgs i bits | asgr i k | and|or|xor i bits | andr|orr|xorr i k |
-//              shl i n | shr i n | q i | not i | shlq i n | shrq i n | eqs i bits | eqr i k | test i j
-//   lru      : ins k v | ins1 k | touch k | find k | popf | popb | resize n | clear
+//   bv <B>   : new n | newv n b | fromv b<bits> | resize n b | clear | setall | unsetall | set i | reset i | flip i |
+//              set1 i j b | reset1 i j | flip1 i j | asgb i b | asgs i bits | asgr i k | and|or|xor i bits |
+//              andr|orr|xorr i k | shl i n | shr i n | q i | not i | shlq i n | shrq i n | eqs i bits | eqr i k | test i j
+//   lru      : [b.](ins k v | ins1 k | touch k | find k | popf | popb | resize n | clear | asg | cc | sasg)   (two caches)
 // The answer line holds one observation per op, joined by ';' (an op outside its precondition — undefined
 // behaviour or a failing assert in C++ — is not executed and observed as "skip"; the model does the same).
 #include <config.h>
@@ -18,6 +20,7 @@
 #include <deque>
 #include <list>
 #include <map>
+#include <memory>
 #include <optional>
 
 #include <dune/common/arraylist.hh>
@@ -107,41 +110,51 @@ template <int N>
 Result runAL(const Case& cs) {
   using AL = Dune::ArrayList<int, N>;
   constexpr int CS = N > 0 ? N : 1;
-  AL a;
-  std::deque<int> sh;
   struct Held { typename AL::iterator it; long g; };
-  std::vector<Held> held;
-  long erased = 0;  // elements erased from the front since the last clear
-  Out out;
-  auto at = [&](long k) {  // begin()+k, built in two different ways
-    auto it = a.begin();
-    if (k % 2) for (long i = 0; i < k; ++i) ++it;
-    else it += k;
-    return it;
+  struct Side {
+    std::unique_ptr<AL> l = std::make_unique<AL>();
+    std::deque<int> sh;
+    std::vector<Held> held;
+    long erased = 0;  // elements erased from the front since the last clear
   };
+  Side S[2];
+  Out out;
   for (size_t oi = 0; oi < cs.ops.size(); ++oi) {
     const auto& w = cs.ops[oi];
     out.opIndex = oi; out.opText = cs.raw[oi];
     std::string res = "-";
     bool ok = false;
-    const std::string op = w.empty() ? "" : w[0];
+    std::string op = w.empty() ? "" : w[0];
+    int t = 0;
+    if (op.size() > 2 && op[0] == 'b' && op[1] == '.') { t = 1; op = op.substr(2); }
+    Side& s = S[t];
+    Side& o = S[1 - t];
+    AL& a = *s.l;
+    std::deque<int>& sh = s.sh;
+    auto at = [&](long k) {  // begin()+k, built in three different ways
+      auto it = a.begin();
+      if (k % 3 == 1) for (long i = 0; i < k; ++i) ++it;
+      else if (k % 3 == 2) it = it + k;
+      else it += k;
+      return it;
+    };
     if (op == "push" && w.size() == 2 && isInt(w[1])) {
       ok = true;
       int x = std::stoi(w[1]);
       a.push_back(x);
       sh.push_back(x);
       stat("al_push");
-      if ((long)sh.size() > 1 && (erased + (long)sh.size() - 1) % CS == 0) stat("al_push_opens_chunk");
+      if ((long)sh.size() > 1 && (s.erased + (long)sh.size() - 1) % CS == 0) stat("al_push_opens_chunk");
     } else if (op == "erase" && w.size() == 2 && isNat(w[1]) && std::stol(w[1]) < (long)sh.size()) {
       ok = true;
       long k = std::stol(w[1]);
       auto it = at(k);
       it.eraseToHere();
       sh.erase(sh.begin(), sh.begin() + k + 1);
-      erased += k + 1;
+      s.erased += k + 1;
       std::vector<Held> keep;
-      for (auto& h : held) if (h.g >= erased) keep.push_back(h);
-      held.swap(keep);
+      for (auto& h : s.held) if (h.g >= s.erased) keep.push_back(h);
+      s.held.swap(keep);
       out.check(it == a.begin(), "iterator after eraseToHere is not begin()");
       res = sh.empty() ? "E" : std::to_string(*it);
       stat("al_erase");
@@ -149,14 +162,14 @@ Result runAL(const Case& cs) {
     } else if (op == "purge" && w.size() == 1) {
       ok = true;
       a.purge();
-      held.clear();
+      s.held.clear();
       stat("al_purge");
     } else if (op == "clear" && w.size() == 1) {
       ok = true;
       a.clear();
       sh.clear();
-      held.clear();
-      erased = 0;
+      s.held.clear();
+      s.erased = 0;
       stat("al_clear");
     } else if (op == "get" && w.size() == 2 && isNat(w[1]) && std::stol(w[1]) < (long)sh.size()) {
       ok = true;
@@ -168,14 +181,14 @@ Result runAL(const Case& cs) {
     } else if (op == "set" && w.size() == 3 && isNat(w[1]) && isInt(w[2]) && std::stol(w[1]) < (long)sh.size()) {
       ok = true;
       long k = std::stol(w[1]);
-      a[k] = std::stoi(w[2]);
+      if (k % 2) a[k] = std::stoi(w[2]); else *at(k) = std::stoi(w[2]);   // through operator[] / through an iterator
       sh[k] = std::stoi(w[2]);
       stat("al_set");
     } else if (op == "hold" && w.size() == 2 && isNat(w[1]) && std::stol(w[1]) <= (long)sh.size()) {
       ok = true;
       long k = std::stol(w[1]);
       auto it = at(k);
-      held.push_back({it, erased + k});
+      s.held.push_back({it, s.erased + k});
       res = k < (long)sh.size() ? std::to_string(*it) : "E";
       out.check(it - a.begin() == k, "iterator difference wrong");
       stat("al_hold");
@@ -188,47 +201,84 @@ Result runAL(const Case& cs) {
       typename AL::const_iterator cit = it;
       out.check(it[j] == sh[k + j] && cit[j] == sh[k + j], "iterator[] wrong");
       stat("al_idx");
+    } else if (op == "asg" && w.size() == 1) {
+      ok = true;
+      AL& ret = (a = *o.l);
+      out.check(&ret == &a, "operator= does not return *this");
+      sh = o.sh; s.erased = o.erased; s.held.clear();
+      stat("al_asg");
+    } else if (op == "cc" && w.size() == 1) {
+      ok = true;
+      s.l = std::make_unique<AL>(*o.l);
+      sh = o.sh; s.erased = o.erased; s.held.clear();
+      stat("al_cc");
+    } else if (op == "sasg" && w.size() == 1) {
+      ok = true;
+      AL& self = a;
+      a = self;            // held iterators stay valid
+      stat("al_sasg");
     }
     if (!ok) { out.obs.push_back("skip"); stat("al_skip"); continue; }
     out.executed++;
-    // ---- observation + oracle -------------------------------------------------------------
-    std::vector<int> seen;
-    for (auto it = a.begin(); it != a.end(); ++it) seen.push_back(*it);
-    std::vector<std::string> hv;
-    for (auto& h : held) {
-      long idx = h.g - erased;
-      if (idx == (long)sh.size()) {
-        hv.push_back("E");
-        out.check(h.it == a.end(), "held end iterator differs from end()");
-      } else {
-        int v = *h.it;
-        hv.push_back(std::to_string(v));
-        out.check(v == sh[idx], "held iterator now denotes " + std::to_string(v) + " expected " + std::to_string(sh[idx]));
-        out.check(h.it - a.begin() == idx, "held iterator distance to begin() wrong");
+    // ---- observation + oracle (both lists, every time: an operation on one list must not show in the other) ----
+    std::string ob;
+    for (int si = 0; si < 2; ++si) {
+      Side& q = S[si];
+      AL& l = *q.l;
+      const AL& cl = l;
+      const std::string nm = si ? "b" : "a";
+      std::vector<int> seen;
+      for (auto it = l.begin(); it != l.end(); ++it) seen.push_back(*it);
+      std::vector<std::string> hv;
+      for (auto& h : q.held) {
+        long idx = h.g - q.erased;
+        if (idx == (long)q.sh.size()) {
+          hv.push_back("E");
+          out.check(h.it == l.end(), nm + ": held end iterator differs from end()");
+        } else {
+          int v = *h.it;
+          hv.push_back(std::to_string(v));
+          out.check(v == q.sh[idx], nm + ": held iterator now denotes " + std::to_string(v) + " expected " + std::to_string(q.sh[idx]));
+          out.check(h.it - l.begin() == idx, nm + ": held iterator distance to begin() wrong");
+        }
       }
-    }
-    out.obs.push_back(std::to_string(a.size()) + " " + lst(seen) + " " + res + " " + lst(hv));
-    out.check(a.size() == sh.size(), "size " + std::to_string(a.size()) + " expected " + std::to_string(sh.size()));
-    out.check(seen.size() == sh.size() && std::equal(seen.begin(), seen.end(), sh.begin()),
-              "iteration shows " + lst(seen) + " expected " + lst(sh));
-    out.check((std::size_t)(a.end() - a.begin()) == sh.size(), "end()-begin() != size");
-    {
-      const AL& ca = a;
-      std::vector<int> cseen, rseen, iseen;
-      for (auto it = ca.begin(); it != ca.end(); ++it) cseen.push_back(*it);
-      out.check(cseen == seen, "const iteration differs");
-      for (auto it = a.end(); it != a.begin();) { --it; rseen.push_back(*it); }
+      ob += (si ? " | " : "") + std::to_string(l.size()) + " " + lst(seen) + " " + lst(hv);
+      out.check(l.size() == q.sh.size(), nm + ".size() = " + std::to_string(l.size()) + " expected " + std::to_string(q.sh.size()));
+      out.check(seen.size() == q.sh.size() && std::equal(seen.begin(), seen.end(), q.sh.begin()),
+                nm + " iterates as " + lst(seen) + " expected " + lst(q.sh));
+      out.check((std::size_t)(l.end() - l.begin()) == q.sh.size(), nm + ": end()-begin() != size");
+      std::vector<int> cseen, rseen, crseen, iseen;
+      for (auto it = cl.begin(); it != cl.end(); ++it) cseen.push_back(*it);
+      out.check(cseen == seen, nm + ": const iteration differs");
+      for (auto it = l.end(); it != l.begin();) { --it; rseen.push_back(*it); }
       std::reverse(rseen.begin(), rseen.end());
-      out.check(rseen == seen, "backward iteration differs");
-      if (a.size() == sh.size()) {
-        for (std::size_t i = 0; i < a.size(); ++i) iseen.push_back(ca[i]);
-        out.check(iseen.size() == sh.size() && std::equal(iseen.begin(), iseen.end(), sh.begin()), "operator[] sweep differs");
+      out.check(rseen == seen, nm + ": backward iteration differs");
+      // the const iterator's own decrement / advance / distanceTo / equals
+      for (auto it = cl.end(); it != cl.begin();) { --it; crseen.push_back(*it); }
+      std::reverse(crseen.begin(), crseen.end());
+      out.check(crseen == seen, nm + ": const backward iteration differs");
+      out.check((std::size_t)(cl.end() - cl.begin()) == q.sh.size(), nm + ": const end()-begin() != size");
+      {
+        typename AL::const_iterator ci = cl.begin();
+        typename AL::iterator mi = l.begin();
+        out.check(mi == ci && !(mi != ci), nm + ": begin() differs from const begin()");
+        long half = (long)q.sh.size() / 2;
+        ci += half; mi += half;
+        out.check(mi == ci && ci - cl.begin() == half, nm + ": const iterator advance/distance wrong");
+        if (half < (long)q.sh.size()) out.check(*ci == q.sh[half] && *mi == q.sh[half], nm + ": advanced iterator denotes the wrong element");
+        typename AL::const_iterator ce = l.end();   // conversion iterator -> const_iterator
+        out.check(ce == cl.end(), nm + ": converted end() differs from const end()");
+      }
+      if (l.size() == q.sh.size()) {
+        for (std::size_t i = 0; i < l.size(); ++i) iseen.push_back(cl[i]);
+        out.check(iseen.size() == q.sh.size() && std::equal(iseen.begin(), iseen.end(), q.sh.begin()), nm + ": operator[] sweep differs");
       }
       // a second instance with the same contents compares equal element by element
-      AL b;
-      for (int x : sh) b.push_back(x);
-      out.check(b.size() == a.size() && std::equal(b.begin(), b.end(), a.begin()), "differs from a freshly built equal list");
+      AL fresh;
+      for (int x : q.sh) fresh.push_back(x);
+      out.check(fresh.size() == l.size() && std::equal(fresh.begin(), fresh.end(), l.begin()), nm + " differs from a freshly built equal list");
     }
+    out.obs.push_back(ob + " " + res);
   }
   stat("al_N" + std::to_string(N));
   return out.result();
@@ -329,6 +379,21 @@ Result runSL(const Case& cs) {
         c.push_back(7);  // the copy is independent and its tail is right
         out.check(c.size() == (int)s.sh.size() + 1 && (c != s.l), "copy not independent");
         stat("sl_cc");
+      } else if (op == "ccv" && w.size() == 1) {
+        ok = true;
+        // converting copy constructor: other element type, other allocator type
+        Dune::SLList<long, CountingAlloc<long>> c(s.l);
+        std::vector<long> cv;
+        for (auto it = c.begin(); it != c.end(); ++it) cv.push_back(*it);
+        res = lst(cv) + std::to_string(c.size());
+        out.check(cv.size() == s.sh.size() && std::equal(cv.begin(), cv.end(), s.sh.begin()), "converting copy shows " + lst(cv));
+        out.check(c.size() == (int)s.sh.size() && c.empty() == s.sh.empty(), "converting copy size/empty wrong");
+        c.push_back(7);  // its tail is right
+        out.check(c.size() == (int)s.sh.size() + 1, "converting copy: push_back afterwards wrong");
+        long last = 0;
+        for (auto it = c.begin(); it != c.end(); ++it) last = *it;
+        out.check(last == 7, "converting copy: tail wrong");
+        stat("sl_ccv");
       } else if (op == "mb" && w.size() == 1) {
         ok = true; s.m = s.l.beginModify(); s.shm = s.sh.begin(); stat("sl_mb");
       } else if (op == "me" && w.size() == 1) {
@@ -366,6 +431,16 @@ Result runSL(const Case& cs) {
         ms = atEnd ? "E" : std::to_string(**s.m);
         out.check(atEnd == (s.shm == s.sh.end()), "modify iterator end state wrong");
         if (!atEnd && s.shm != s.sh.end()) out.check(**s.m == *s.shm, "modify iterator denotes " + ms + " expected " + std::to_string(*s.shm));
+        // conversions ModifyIterator -> iterator / const_iterator
+        SLL::iterator pit(*s.m);
+        SLL::const_iterator cit(*s.m);
+        out.check((pit == s.l.end()) == atEnd && (cit == cl.end()) == atEnd && s.m->equals(pit) && s.m->equals(cit),
+                  "iterator converted from the modify iterator differs");
+        if (!atEnd) out.check(*pit == **s.m && *cit == **s.m, "converted iterator denotes another element");
+      }
+      {
+        SLL::const_iterator cb = s.l.begin();  // conversion iterator -> const_iterator
+        out.check(cb == cl.begin() && s.l.begin().equals(cb), "begin() converted to const_iterator differs from const begin()");
       }
       ob += std::string(i ? " b:" : "a:") + std::to_string(s.l.size()) + "," + (s.l.empty() ? "t" : "f") + "," + lst(seen) + "," + ms;
       std::string nm = i ? "b" : "a";
@@ -416,7 +491,11 @@ Result runRV(const Case& cs) {
       Side& s = S[t];
       Side& o = S[1 - t];
       if (op == "push" && w.size() == 2 && isInt(w[1]) && (int)s.sh.size() < n) {
-        ok = true; s.v.push_back(std::stoi(w[1])); s.sh.push_back(std::stoi(w[1])); stat("rv_push");
+        ok = true;
+        const int x = std::stoi(w[1]);
+        if (x % 2) { s.v.push_back(x); stat("rv_push_lvalue"); }          // push_back(const value_type&)
+        else { s.v.push_back(std::stoi(w[1])); stat("rv_push_rvalue"); }  // push_back(value_type&&)
+        s.sh.push_back(x); stat("rv_push");
         if ((int)s.sh.size() == n) stat("rv_full");
       } else if (op == "emp" && w.size() == 2 && isInt(w[1]) && (int)s.sh.size() < n) {
         ok = true;
@@ -450,6 +529,11 @@ Result runRV(const Case& cs) {
         ok = true; s.v.fill(std::stoi(w[1])); for (auto& x : s.sh) x = std::stoi(w[1]); stat("rv_fill");
       } else if (op == "swap" && w.size() == 1) {
         ok = true; s.v.swap(o.v); s.sh.swap(o.sh); stat("rv_swap");
+      } else if (op == "asg" && w.size() == 1) {
+        ok = true;
+        if (t == 0) { RV& ret = (s.v = o.v); out.check(&ret == &s.v, "operator= does not return *this"); }  // copy assignment
+        else { RV c(o.v); s.v = std::move(c); }                                                              // copy construction
+        s.sh = o.sh; stat("rv_asg");
       } else if (op == "ctor" && w.size() == 1) {
         ok = true; s.v = RV(); s.sh.clear(); stat("rv_ctor");
       } else if (op == "ctorc" && w.size() == 2 && isNat(w[1]) && std::stol(w[1]) <= n) {
@@ -464,7 +548,10 @@ Result runRV(const Case& cs) {
         ok = true;
         auto l = parseList(w[1]);
         std::vector<int> li(l.begin(), l.end());
-        s.v = RV(li.begin(), li.end());
+        // odd lengths up to 3 go through the std::initializer_list constructor, the rest through the iterator pair
+        if (li.size() == 1) { s.v = RV{li[0]}; stat("rv_init_ilist"); }
+        else if (li.size() == 3) { s.v = RV{li[0], li[1], li[2]}; stat("rv_init_ilist"); }
+        else s.v = RV(li.begin(), li.end());
         s.sh.assign(li.begin(), li.end());
         stat("rv_init");
       }
@@ -478,7 +565,13 @@ Result runRV(const Case& cs) {
       std::vector<int> seen(s.v.begin(), s.v.end());
       const RV& cv = s.v;
       std::vector<int> cseen(cv.begin(), cv.end()), rseen(s.v.rbegin(), s.v.rend()), ccseen(cv.cbegin(), cv.cend());
+      std::vector<int> crseen(cv.rbegin(), cv.rend()), ccrseen(cv.crbegin(), cv.crend());
       std::reverse(rseen.begin(), rseen.end());
+      std::reverse(crseen.begin(), crseen.end());
+      std::reverse(ccrseen.begin(), ccrseen.end());
+      out.check(crseen == seen && ccrseen == seen, nm + " const reverse iteration differs");
+      out.check((std::size_t)(s.v.end() - s.v.begin()) == s.v.size() && (std::size_t)(cv.cend() - cv.cbegin()) == s.v.size(), nm + " end()-begin() != size()");
+      out.check(std::hash<RV>()(s.v) == hash_value(s.v), nm + " std::hash differs from hash_value");
       std::string fr = s.v.empty() ? "-" : std::to_string(s.v.front());
       std::string bk = s.v.empty() ? "-" : std::to_string(s.v.back());
       ob += std::string(i ? " b:" : "a:") + std::to_string(s.v.size()) + "," + lst(seen) + "," + fr + "," + bk;
@@ -489,7 +582,7 @@ Result runRV(const Case& cs) {
       bool same = seen.size() == s.sh.size();
       for (std::size_t j = 0; same && j < seen.size(); ++j) {
         if (s.sh[j] && *s.sh[j] != seen[j]) same = false;
-        if (s.v[j] != seen[j] || cv[j] != seen[j] || s.v.data()[j] != seen[j]) same = false;
+        if (s.v[j] != seen[j] || cv[j] != seen[j] || s.v.data()[j] != seen[j] || cv.data()[j] != seen[j]) same = false;
       }
       out.check(same, nm + " shows " + lst(seen));
       if (!s.sh.empty() && same) {
@@ -554,6 +647,23 @@ Result runBV(const Case& cs) {
       ok = true; v = BV((int)num(1)); sh.assign(num(1), BS()); stat("bv_new");
     } else if (op == "newv" && w.size() == 3 && isNat(w[1]) && num(1) <= 64 && flag(2)) {
       ok = true; v = BV((int)num(1), w[2] == "1"); sh.assign(num(1), w[2] == "1" ? ~BS() : BS()); stat("bv_newv");
+    } else if (op == "fromv" && w.size() == 2 && w[1].size() >= 1 && w[1].size() <= 301 && w[1][0] == 'b' &&
+               isBits(w[1].substr(1), w[1].size() - 1)) {
+      ok = true;
+      std::vector<bool> raw;
+      for (std::size_t j = 1; j < w[1].size(); ++j) raw.push_back(w[1][j] == '1');
+      try {
+        BV nv(raw);
+        v = nv;
+        sh.assign(raw.size() / B, BS());
+        for (std::size_t j = 0; j < raw.size(); ++j) sh[j / B][j % B] = raw[j];
+        out.check(raw.size() % B == 0, "BitSetVector(vector<bool>) accepted a size that is not a multiple of the block size");
+        stat("bv_fromv");
+      } catch (Dune::RangeError&) {
+        res = "ERR:Range";
+        out.check(raw.size() % B != 0, "BitSetVector(vector<bool>) threw for a multiple of the block size");
+        stat("bv_fromv_err");
+      }
     } else if (op == "resize" && w.size() == 3 && isNat(w[1]) && num(1) <= 64 && flag(2)) {
       ok = true; v.resize((int)num(1), w[2] == "1"); sh.resize(num(1), w[2] == "1" ? ~BS() : BS()); stat("bv_resize");
     } else if (op == "clear" && w.size() == 1) {
@@ -570,7 +680,9 @@ Result runBV(const Case& cs) {
       ok = true; v[num(1)].flip(); sh[num(1)].flip(); stat("bv_flip");
     } else if (op == "set1" && w.size() == 4 && blk(1) && bit(2) && flag(3)) {
       ok = true;
-      if (w[3] == "1" && num(2) % 2) v[num(1)].set(num(2)); else v[num(1)].set(num(2), w[3] == "1");
+      if (w[3] == "1" && num(2) % 3 == 1) v[num(1)].set(num(2));               // default argument
+      else if (w[3] == "1" && num(2) % 3 == 2) v[num(1)].set(num(2), 2);      // any non-zero int means true
+      else v[num(1)].set(num(2), w[3] == "1");
       sh[num(1)].set(num(2), w[3] == "1"); stat("bv_set1");
     } else if (op == "reset1" && w.size() == 3 && blk(1) && bit(2)) {
       ok = true; v[num(1)].reset(num(2)); sh[num(1)].reset(num(2)); stat("bv_reset1");
@@ -579,7 +691,14 @@ Result runBV(const Case& cs) {
     } else if (op == "asgb" && w.size() == 3 && blk(1) && flag(2)) {
       ok = true; v[num(1)] = (w[2] == "1"); sh[num(1)] = w[2] == "1" ? ~BS() : BS(); stat("bv_asgb");
     } else if (op == "asgs" && w.size() == 3 && blk(1) && isBits(w[2], B)) {
-      ok = true; v[num(1)] = bitsOf<B>(w[2]); sh[num(1)] = bitsOf<B>(w[2]); stat("bv_asgs");
+      ok = true;
+      if (num(1) % 2) {  // through the mutable iterator's proxy
+        auto it = v.begin();
+        for (long j = 0; j < num(1); ++j) ++it;
+        *it = bitsOf<B>(w[2]);
+        stat("bv_asgs_iter");
+      } else v[num(1)] = bitsOf<B>(w[2]);
+      sh[num(1)] = bitsOf<B>(w[2]); stat("bv_asgs");
     } else if (op == "asgr" && w.size() == 3 && blk(1) && blk(2)) {
       ok = true;
       if (num(2) % 2) v[num(1)] = cv[num(2)]; else v[num(1)] = v[num(2)];
@@ -675,22 +794,40 @@ Result runBV(const Case& cs) {
 // ================================================================================================
 // lru
 // ================================================================================================
+// const access: the read-only front()/back()/find() overloads.  back() const exists in two spellings in the wild
+// (`back() const` and the historical `back(int) const`); both mean the same, so either is accepted.
+template <class L>
+int lruConstBack(const L& c) {
+  if constexpr (requires { c.back(); }) return c.back();
+  else return c.back(0);
+}
+
 Result runLRU(const Case& cs) {
   using L = Dune::lru<int, int>;
-  L c;
-  std::list<std::pair<int, int>> sh;  // recency order, most recent first
-  std::map<int, int> shm;             // key -> value
+  struct Side {
+    std::unique_ptr<L> c = std::make_unique<L>();
+    std::list<std::pair<int, int>> sh;  // recency order, most recent first
+    std::map<int, int> shm;             // key -> value
+  };
+  Side S[2];
   Out out;
   const int KEYS = 8;
-  auto shErase = [&](int k) {
-    for (auto it = sh.begin(); it != sh.end();) it = (it->first == k) ? sh.erase(it) : std::next(it);
-  };
   for (size_t oi = 0; oi < cs.ops.size(); ++oi) {
     const auto& w = cs.ops[oi];
     out.opIndex = oi; out.opText = cs.raw[oi];
     std::string res = "-";
     bool ok = false;
-    const std::string op = w.empty() ? "" : w[0];
+    std::string op = w.empty() ? "" : w[0];
+    int t = 0;
+    if (op.size() > 2 && op[0] == 'b' && op[1] == '.') { t = 1; op = op.substr(2); }
+    Side& s = S[t];
+    Side& o = S[1 - t];
+    L& c = *s.c;
+    auto& sh = s.sh;
+    auto& shm = s.shm;
+    auto shErase = [&](int k) {
+      for (auto it = sh.begin(); it != sh.end();) it = (it->first == k) ? sh.erase(it) : std::next(it);
+    };
     auto key = [&](size_t i) { return w.size() > i && isNat(w[i]) && std::stol(w[i]) < 1000; };
     if (op == "ins" && w.size() == 3 && key(1) && isInt(w[2])) {
       ok = true;
@@ -737,53 +874,84 @@ Result runLRU(const Case& cs) {
       stat("lru_resize");
     } else if (op == "clear" && w.size() == 1) {
       ok = true; c.clear(); sh.clear(); shm.clear(); stat("lru_clear");
+    } else if (op == "asg" && w.size() == 1) {
+      ok = true;
+      L& ret = (c = *o.c);
+      out.check(&ret == &c, "operator= does not return *this");
+      sh = o.sh; shm = o.shm; stat("lru_asg");
+    } else if (op == "cc" && w.size() == 1) {
+      ok = true;
+      s.c = std::make_unique<L>(*o.c);
+      sh = o.sh; shm = o.shm; stat("lru_cc");
+    } else if (op == "sasg" && w.size() == 1) {
+      ok = true;
+      L& self = c;
+      c = self;
+      stat("lru_sasg");
     }
     if (!ok) { out.obs.push_back("skip"); stat("lru_skip"); continue; }
     out.executed++;
-    // full iteration: walk back size() steps from end() (= find of a key that is never inserted)
-    std::vector<std::string> seen;
-    std::vector<std::pair<int, int>> seenp;
-    {
-      auto it = c.find(-1);
-      for (std::size_t i = 0; i < c.size(); ++i) { --it; seenp.push_back(*it); }
-      std::reverse(seenp.begin(), seenp.end());
-      for (auto& p : seenp) seen.push_back(std::to_string(p.first) + ":" + std::to_string(p.second));
-    }
-    std::vector<std::string> finds;
-    for (int k = 0; k < KEYS; ++k) {
-      auto it = c.find(k);
-      bool found = it != c.find(-1);
-      finds.push_back(found ? std::to_string(it->second) : "-");
-      auto e = shm.find(k);
-      out.check(found == (e != shm.end()), "find(" + std::to_string(k) + ") presence wrong");
-      if (found && e != shm.end()) {
-        out.check(it->first == k, "find(" + std::to_string(k) + ") yields key " + std::to_string(it->first));
-        out.check(it->second == e->second, "find(" + std::to_string(k) + ") = " + std::to_string(it->second) + " expected " + std::to_string(e->second));
+    std::string ob;
+    for (int si = 0; si < 2; ++si) {
+      Side& q = S[si];
+      L& l = *q.c;
+      const L& cl = l;
+      const std::string nm = si ? "b" : "a";
+      // full iteration: walk back size() steps from end() (= find of a key that is never inserted)
+      std::vector<std::string> seen;
+      std::vector<std::pair<int, int>> seenp, cseenp;
+      {
+        auto it = l.find(-1);
+        for (std::size_t i = 0; i < l.size(); ++i) { --it; seenp.push_back(*it); }
+        std::reverse(seenp.begin(), seenp.end());
+        for (auto& p : seenp) seen.push_back(std::to_string(p.first) + ":" + std::to_string(p.second));
+        auto cit = cl.find(-1);   // the const overload
+        for (std::size_t i = 0; i < cl.size(); ++i) { --cit; cseenp.push_back(*cit); }
+        std::reverse(cseenp.begin(), cseenp.end());
+        out.check(cseenp == seenp, nm + ": const iteration differs");
+      }
+      std::vector<std::string> finds;
+      for (int k = 0; k < KEYS; ++k) {
+        auto it = l.find(k);
+        bool found = it != l.find(-1);
+        auto cit = cl.find(k);
+        bool cfound = cit != cl.find(-1);
+        finds.push_back(found ? std::to_string(it->second) : "-");
+        auto e = q.shm.find(k);
+        out.check(found == (e != q.shm.end()), nm + ".find(" + std::to_string(k) + ") presence wrong");
+        out.check(cfound == found && (!found || (cit->first == it->first && cit->second == it->second)), nm + ": const find(" + std::to_string(k) + ") differs");
+        if (found && e != q.shm.end()) {
+          out.check(it->first == k, nm + ".find(" + std::to_string(k) + ") yields key " + std::to_string(it->first));
+          out.check(it->second == e->second, nm + ".find(" + std::to_string(k) + ") = " + std::to_string(it->second) + " expected " + std::to_string(e->second));
+        }
+      }
+      std::string fr = l.size() ? std::to_string(l.front()) : "-";
+      std::string bk = l.size() ? std::to_string(l.back()) : "-";
+      ob += (si ? " | " : "") + std::to_string(l.size()) + " " + fr + " " + bk + " " + lst(seen) + " " + lst(finds);
+      out.check(l.size() == q.sh.size() && q.sh.size() == q.shm.size(), nm + ".size() = " + std::to_string(l.size()) + " expected " + std::to_string(q.shm.size()));
+      out.check(seenp.size() == q.sh.size() && std::equal(seenp.begin(), seenp.end(), q.sh.begin()), nm + ": recency order is " + lst(seen));
+      if (!q.sh.empty() && l.size()) {
+        out.check(l.front() == q.sh.front().second && l.back() == q.sh.back().second, nm + ": front/back wrong");
+        out.check(cl.front() == q.sh.front().second && lruConstBack(cl) == q.sh.back().second, nm + ": const front/back wrong");
+      }
+      // a second instance filled with the same entries (oldest first) shows the same order
+      {
+        L d;
+        for (auto it = q.sh.rbegin(); it != q.sh.rend(); ++it) d.insert(it->first, it->second);
+        bool eq = d.size() == l.size();
+        auto i1 = l.find(-1);
+        auto i2 = d.find(-1);
+        for (std::size_t i = 0; eq && i < l.size(); ++i) { --i1; --i2; eq = *i1 == *i2; }
+        out.check(eq, nm + " differs from a freshly built equal cache");
       }
     }
-    std::string fr = c.size() ? std::to_string(c.front()) : "-";
-    std::string bk = c.size() ? std::to_string(c.back()) : "-";
-    out.obs.push_back(std::to_string(c.size()) + " " + fr + " " + bk + " " + lst(seen) + " " + lst(finds) + " " + res);
-    out.check(c.size() == sh.size() && sh.size() == shm.size(), "size " + std::to_string(c.size()) + " expected " + std::to_string(shm.size()));
-    out.check(seenp.size() == sh.size() && std::equal(seenp.begin(), seenp.end(), sh.begin()), "recency order is " + lst(seen));
-    if (!sh.empty() && c.size())
-      out.check(c.front() == sh.front().second && c.back() == sh.back().second, "front/back wrong");
-    if (op == "find" && ok) {
+    if (op == "find") {
       int k = std::stoi(w[1]);
       auto e = shm.find(k);
       out.check((res == "E") == (e == shm.end()), "find result presence wrong");
       if (e != shm.end()) out.check(res == std::to_string(k) + ":" + std::to_string(e->second), "find result " + res);
     }
-    // a second instance filled with the same entries (oldest first) shows the same order
-    {
-      L d;
-      for (auto it = sh.rbegin(); it != sh.rend(); ++it) d.insert(it->first, it->second);
-      bool eq = d.size() == c.size();
-      auto i1 = c.find(-1);
-      auto i2 = d.find(-1);
-      for (std::size_t i = 0; eq && i < c.size(); ++i) { --i1; --i2; eq = *i1 == *i2; }
-      out.check(eq, "differs from a freshly built equal cache");
-    }
+    out.obs.push_back(ob + " " + res);
   }
   return out.result();
 }
@@ -845,20 +1013,31 @@ std::string genAL(Rng& r, const Args& a) {
   int Nt = r.pick(NS);
   int N = Nt > 0 ? Nt : 1;
   long len = histLen(r, a);
-  long size = 0, start = 0;
+  long sizes[2] = {0, 0}, starts[2] = {0, 0};
+  const bool two = r.coin(1, 2);  // half of the histories use the second list and copies
   std::vector<std::string> ops;
   int ctr = 1;
   for (long i = 0; i < len; ++i) {
     std::ostringstream os;
     int c = (int)r.below(100);
-    if (r.coin(1, 60)) {  // deliberately outside the precondition
+    const int t = two && r.coin(1, 3) ? 1 : 0;
+    const std::string T = t ? "b." : "";
+    long& size = sizes[t];
+    long& start = starts[t];
+    if (two && r.coin(1, 12)) {  // copies in both directions, self-assignment
+      switch (r.below(5)) {
+        case 0: os << T << "sasg"; break;
+        case 1: case 2: os << T << "asg"; size = sizes[1 - t]; start = starts[1 - t]; break;
+        default: os << T << "cc"; size = sizes[1 - t]; start = starts[1 - t]; break;
+      }
+    } else if (r.coin(1, 60)) {  // deliberately outside the precondition
       static const std::vector<std::string> bad = {"erase", "get", "hold", "idx 0", "set 99"};
-      os << r.pick(bad) << " " << (size + r.range(1, 2));
+      os << T << r.pick(bad) << " " << (size + r.range(1, 2));
     } else if (c < 45 || (size == 0 && c < 70)) {
       int burst = r.coin(1, 5) ? (int)r.range(1, 2 * N) : 1;  // fill across a chunk boundary
       for (int b = 0; b < burst; ++b) {
         if (b) { ops.push_back(os.str()); os.str(""); }
-        os << "push " << (r.coin(3, 4) ? ctr++ : val(r));
+        os << T << "push " << (r.coin(3, 4) ? ctr++ : val(r));
         ++size;
       }
     } else if (c < 60 && size > 0) {
@@ -875,24 +1054,24 @@ std::string genAL(Rng& r, const Args& a) {
       }
       if (k < 0) k = 0;
       if (k >= size) k = size - 1;
-      os << "erase " << k;
+      os << T << "erase " << k;
       size -= k + 1; start += k + 1;
     } else if (c < 72) {
-      os << "purge";
+      os << T << "purge";
       if (start / N > 0) start %= N;
     } else if (c < 75) {
-      os << "clear"; size = 0; start = 0;
+      os << T << "clear"; size = 0; start = 0;
     } else if (c < 80 && size > 0) {
-      os << "get " << r.below(size);
+      os << T << "get " << r.below(size);
     } else if (c < 85 && size > 0) {
-      os << "set " << r.below(size) << " " << val(r);
+      os << T << "set " << r.below(size) << " " << val(r);
     } else if (c < 95) {
-      os << "hold " << (r.coin(1, 3) ? size : (long)r.below(size + 1));
+      os << T << "hold " << (r.coin(1, 3) ? size : (long)r.below(size + 1));
     } else if (size > 0) {
       long k = r.below(size);
-      os << "idx " << k << " " << r.below(size - k);
+      os << T << "idx " << k << " " << r.below(size - k);
     } else {
-      os << "push " << ctr++; ++size;
+      os << T << "push " << ctr++; ++size;
     }
     ops.push_back(os.str());
   }
@@ -937,7 +1116,7 @@ std::string genSL(Rng& r, const Args& a) {
       os << T << "asg " << (src ? "b" : "a");
       n = size[src]; mlive[t] = false;
     }
-    else if (c < 62) { os << T << "cc"; }
+    else if (c < 62) { os << T << (r.coin(1, 2) ? "cc" : "ccv"); }
     else if (c < 80) { os << T << "mb"; mlive[t] = true; mpos[t] = 0; }
     else if (c < 92) { os << T << "me"; mlive[t] = true; mpos[t] = n; }
     else { os << T << "pb " << ctr++; ++n; mlive[t] = false; }
@@ -967,7 +1146,8 @@ std::string genRV(Rng& r, const Args& a) {
     else if (c < 63 && s > 0) { os << T << "set " << r.below(s) << " " << v; }
     else if (c < 70) { os << T << "at " << (s > 0 && r.coin() ? (long)r.below(s) : r.range(0, n + 1)); }
     else if (c < 74) { os << T << "fill " << v; }
-    else if (c < 80) { os << T << "swap"; std::swap(size[0], size[1]); }
+    else if (c < 77) { os << T << "swap"; std::swap(size[0], size[1]); }
+    else if (c < 80) { os << T << "asg"; s = size[1 - t]; }
     else if (c < 82) { os << T << "ctor"; s = 0; }
     else if (c < 85) { long k = r.range(0, n); os << T << "ctorc " << k; s = k; }
     else if (c < 90) { long k = r.range(0, n); os << T << "ctorv " << k << " " << v; s = k; }
@@ -1002,9 +1182,18 @@ std::string genBV(Rng& r, const Args& a) {
     int c = (int)r.below(100);
     if (n == 0 || c < 6) {
       long k = r.range(n == 0 ? 1 : 0, 5);
-      switch (r.below(3)) {
+      switch (r.below(4)) {
         case 0: os << "new " << k; break;
         case 1: os << "newv " << k << " " << r.below(2); break;
+        case 2: {  // from a std::vector<bool>: usually whole blocks, sometimes one bit more or less (RangeError)
+          long bitsN = k * B;
+          if (r.coin(1, 4)) bitsN += r.coin() ? 1 : (bitsN > 0 ? -1 : B + 1);
+          std::string raw = "b";
+          for (long j = 0; j < bitsN; ++j) raw += r.coin() ? '1' : '0';
+          os << "fromv " << raw;
+          if (bitsN % B != 0) k = n;  // rejected: the vector keeps its blocks
+          break;
+        }
         default: os << "resize " << k << " " << r.below(2); break;
       }
       n = k;
@@ -1037,22 +1226,33 @@ std::string genLRU(Rng& r, const Args& a) {
   long len = histLen(r, a);
   long nkeys = r.coin(1, 3) ? 3 : r.coin() ? 6 : 8;
   std::vector<std::string> ops;
-  std::vector<int> present;  // generator's own idea of the keys (only steers the choice of ops)
+  std::vector<int> presents[2];  // generator's own idea of the keys (only steers the choice of ops)
+  const bool two = r.coin(1, 2);  // half of the histories use the second cache and copies
   int ctr = 10;
-  auto erase = [&](int k) { present.erase(std::remove(present.begin(), present.end(), k), present.end()); };
   for (long i = 0; i < len; ++i) {
     std::ostringstream os;
     int c = (int)r.below(100);
     int k = (int)r.below(nkeys);
+    const int t = two && r.coin(1, 3) ? 1 : 0;
+    const std::string T = t ? "b." : "";
+    std::vector<int>& present = presents[t];
+    auto erase = [&](int key) { present.erase(std::remove(present.begin(), present.end(), key), present.end()); };
     if (!present.empty() && r.coin(1, 3)) k = r.pick(present);
-    if (c < 45) { os << "ins " << k << " " << ctr++; erase(k); present.insert(present.begin(), k); }
-    else if (c < 62) { os << (r.coin(1, 3) ? "ins1 " : "touch ") << k;
+    if (two && r.coin(1, 10)) {
+      switch (r.below(5)) {
+        case 0: os << T << "sasg"; break;
+        case 1: case 2: os << T << "asg"; present = presents[1 - t]; break;
+        default: os << T << "cc"; present = presents[1 - t]; break;
+      }
+    }
+    else if (c < 45) { os << T << "ins " << k << " " << ctr++; erase(k); present.insert(present.begin(), k); }
+    else if (c < 62) { os << T << (r.coin(1, 3) ? "ins1 " : "touch ") << k;
       if (std::count(present.begin(), present.end(), k)) { erase(k); present.insert(present.begin(), k); } }
-    else if (c < 72) { os << "find " << k; }
-    else if (c < 79) { os << "popf"; if (!present.empty()) present.erase(present.begin()); }
-    else if (c < 88) { os << "popb"; if (!present.empty()) present.pop_back(); }
-    else if (c < 98) { long n = present.empty() ? 0 : (long)r.below(present.size() + 1); if (r.coin(1, 20)) n = present.size() + 1; os << "resize " << n; if (n <= (long)present.size()) present.resize(n); }
-    else { os << "clear"; present.clear(); }
+    else if (c < 72) { os << T << "find " << k; }
+    else if (c < 79) { os << T << "popf"; if (!present.empty()) present.erase(present.begin()); }
+    else if (c < 88) { os << T << "popb"; if (!present.empty()) present.pop_back(); }
+    else if (c < 98) { long n = present.empty() ? 0 : (long)r.below(present.size() + 1); if (r.coin(1, 20)) n = present.size() + 1; os << T << "resize " << n; if (n <= (long)present.size()) present.resize(n); }
+    else { os << T << "clear"; present.clear(); }
     ops.push_back(os.str());
   }
   return "lru : " + join(ops.begin(), ops.end(), ";");
@@ -1067,6 +1267,14 @@ std::string genEnum(const std::string& kind, long i) {
     head = "al " + kind.substr(2);
     alpha = {"push #", "erase 0", "erase 1", "purge", "hold 1", "erase 2", "clear"};
     len = 6;
+  } else if (kind == "al2c" || kind == "al3c") {  // two lists with copies
+    head = "al " + kind.substr(2, 1);
+    alpha = {"push #", "b.push #", "erase 0", "b.erase 1", "b.cc", "asg", "b.set 0 9", "purge", "b.purge", "hold 1"};
+    len = 5;
+  } else if (kind == "lruc") {
+    head = "lru";
+    alpha = {"ins 0 #", "ins 1 #", "b.ins 0 #", "b.touch 1", "touch 0", "b.cc", "asg", "popb", "b.popf", "b.sasg"};
+    len = 5;
   } else if (kind == "sl") {
     head = "sl";
     alpha = {"a.pb #", "a.pf #", "a.pop", "a.mb", "a.m+", "a.mi #", "a.mr", "a.me", "a.asg a", "a.dn 0"};
